@@ -256,6 +256,24 @@ pub fn directed(profile: &str) -> Vec<(String, Vec<(String, Value)>)> {
                     out.push((src.to_string(), ctxvars.clone()));
                 }
             }
+            // host-supplied maps whose keys include an int and a uint of the same magnitude: two entries, both visited
+            {
+                use cel_interpreter::objects::{Key, Map};
+                let mut hm = std::collections::HashMap::new();
+                hm.insert(Key::Int(1), Value::Int(10));
+                hm.insert(Key::Uint(1), Value::Int(20));
+                hm.insert(Key::String(std::sync::Arc::new("a".to_string())), Value::Int(30));
+                let mut hm2 = std::collections::HashMap::new();
+                hm2.insert(Key::Int(0), Value::Int(1));
+                hm2.insert(Key::Uint(0), Value::Int(2));
+                for m in [hm, hm2] {
+                    let vars = vec![("m".to_string(), Value::Map(Map { map: std::sync::Arc::new(m) }))];
+                    for src in ["size(m.map(k, k))", "m.all(k, t(1, 1) == 1)", "m.exists_one(k, k == 1)", "m.exists_one(k, k == 0)", "size(m.filter(k, true))", "m.map(k, 1)", "m.exists(k, k == 'a')",
+                                "size(m)", "m.map(k, m[k] > 0)", "[m].map(e, size(e.map(k, k)))"] {
+                        out.push((src.to_string(), vars.clone()));
+                    }
+                }
+            }
             // chains of macros sharing the variable name: the inner macro completes before the outer one starts
             let preds = ["t(1, x) > 0", "10 / x > 0", "t(1, x) != 2", "x > 0 && t(1, x) > 0", "tb(1)", "x != nope"];
             let bodies = ["t(2, x)", "x + nope", "10 / x", "t(2, x) * 2", "x"];
